@@ -240,6 +240,19 @@ func runPage(cfg *config) {
 		id++
 		pageCase(cfg, id, path, genInternal(r.Fork(), n), n > 0)
 	}
+	// pages far into the file: offsets at and beyond 4 GiB (the file is sparse)
+	for _, off := range []uint64{1<<32 - 4096, 1 << 32, 1<<32 + 4096, 1<<33 + 8192, 5<<32 + 12288} {
+		rr := r.Fork()
+		v := genLeaf(rr, rr.Range(1, 6), func() int { return rr.Range(1, 60) })
+		v.Off = off
+		id++
+		pageCase(cfg, id, path, v, true)
+		w := genInternal(rr, rr.Range(1, 20))
+		w.Off = off + 4096
+		id++
+		pageCase(cfg, id, path, w, true)
+	}
+	os.Remove(path)
 	// random shapes within capacity
 	for i := 0; i < 300*cfg.scale; i++ {
 		rr := r.Fork()
